@@ -15,6 +15,7 @@ typedef ezc3d::DataNS::AnalogsNS::SubFrame SubFrame;
 typedef ezc3d::DataNS::AnalogsNS::Channel Channel;
 
 uint32_t genFloatBits(Rng& r, bool special);
+size_t paramSectionBytes(const Snap& s);   // bytes the parameter section of a save takes (before the end marker and padding)
 std::string dimsToStr(const std::vector<size_t>& d);
 
 struct Hist {
@@ -69,6 +70,10 @@ struct Hist {
     bool opFailedLoad();
     bool opSecondObject();
     bool opManyPoints();
+    bool opRetainedRefEdit();
+    bool opBulkParams();
+    void loadDecoy();
+    bool bulkDone;
 
     // helpers
     Frame buildFrame(int deviation, std::string* devName, SFrame* intended, int forceSub = -1);
